@@ -466,6 +466,8 @@ def check(prop, tier):
         for k, b in enumerate(r.get("yield_site_bits") or []):
             site_bits[k] |= b
     yield_sites_hit = sum(bin(b).count("1") for b in site_bits)
+    dyn_native = int((stats.get("probes") or {}).get("dynamic_native_fallback", 0))
+    nworkers_seen = len(results)
     wall = time.time() - t0
     run_wall = max((r.get("wall_s", 0) for r in results), default=0)
 
@@ -542,7 +544,8 @@ def check(prop, tier):
         uncontrolled_sites=report.get("uncontrolled") or [],
         unmodelled_sync=report.get("unmodelled") or [],
         components=COMPONENTS[prop],
-        scheduler_mode=(None if not cfg["race"] else ("deterministic (seeded baton passing)" if not (report.get("unmodelled") or []) else
+        scheduler_mode=(None if not cfg["race"] else ("deterministic (seeded baton passing)" if not (report.get("unmodelled") or []) and not dyn_native else
+                        "DYNAMIC NATIVE FALLBACK in %d of %d workers: a task went to sleep in a blocking primitive the simulator does not model (inside a dependency, say) while every other task was parked; from that workload on those workers ran tasks as ordinary goroutines (race detector, sequential-reference oracle, 15 s deadlock timeout still apply; schedules not chosen or replayable)" % (dyn_native, nworkers_seen) if not (report.get("unmodelled") or []) else
                         "NATIVE FALLBACK: the instrumented packages use synchronisation the simulator does not model (see unmodelled_sync); tasks ran as ordinary goroutines - race detector, sequential-reference oracle and a 15 s deadlock timeout still apply, schedules are not chosen or replayable")),
         determinism_selftest=selftest,
         cross_process_history_check=history_info,
@@ -557,7 +560,7 @@ def check(prop, tier):
         print("KNOWN-FINDING: property=%s %s %s%s" % (prop, k, desc, "" if k in observed_known else " (not exercised in this run)"), flush=True)
     print("explored: %d executions, %d distinct non-trivial, %.0f/h; faults=%s%s" % (
         coverage["evaluations"], coverage["distinct_nontrivial"], coverage["runs_per_hour"], json.dumps(coverage["fault_kinds"], sort_keys=True),
-        "" if not cfg["race"] else ("; scheduler=" + ("deterministic" if not (report.get("unmodelled") or []) else "NATIVE-FALLBACK"))), flush=True)
+        "" if not cfg["race"] else ("; scheduler=" + ("deterministic" if not (report.get("unmodelled") or []) and not dyn_native else "NATIVE-FALLBACK"))), flush=True)
     if new_viol:
         for k, path, v, out in new_viol:
             print(out)
